@@ -16,7 +16,7 @@ CHECKS = {
               "what is not yet proved is covered by correspondence only. The native back end is not modelled as code: it is represented by Sem's native configuration "
               "(tied in C02) and compared directly with the VM: every program is compiled by nanoc and run and run by nano_virt --run, stdout and exit status must be "
               "equal unless the reference says the run performs a partial operation. VM side tied by byte-identical .nvm files from the front-end models."),
-        note=TB + " Partial: no theorem covers the C transpiler or the C runtime; the proved statement about the two back ends is at the level of the reference configurations. F-C02-2 (native argument order) is a known finding reported on every run.",
+        note=TB + " Partial: no theorem covers the C transpiler or the C runtime; the proved statement about the two back ends is at the level of the reference configurations.",
         technique="Lean 4 proof over an executable reference semantics and compiler model + byte-for-byte front-end correspondence + direct two-engine differential oracle",
         category="proof",
         design="6/C01"),
